@@ -58,7 +58,14 @@ def gen_ext_history(rng, length):
                 g = new("pg")
                 ops.append({"op": "pg", "id": g, "obj": o, "named": False, "k": rng.range(1, 3), "seed": rng.below(1000)})
 
-    patterns = [p for p, c in ((pattern_type_churn, 30), (pattern_unnamed_pgs, 15)) if rng.chance(c)]
+    def pattern_deferred_save():
+        # a group created without saving it, which then receives a child: only the walk at close links it under its parent
+        g = new("group")
+        ops.append({"op": "create", "id": g, "cls": "group", "parent": g0 if rng.chance(50) else None, "ws": 0, "deferred": True})
+        c = new("points")
+        ops.append({"op": "create", "id": c, "cls": "points", "parent": g, "ws": 0, "n": 3})
+
+    patterns = [p for p, c in ((pattern_type_churn, 30), (pattern_unnamed_pgs, 15), (pattern_deferred_save, 25)) if rng.chance(c)]
     at = {rng.range(len(ops), max(len(ops), length - 8)): p for p in patterns}
     while len(ops) < length:
         for pos in sorted(at):
@@ -307,7 +314,9 @@ class ExtImpl:
                 n = op.get("n", 3)
                 cls = op["cls"]
                 ws = p.workspace  # create in the parent's own workspace (the parent may be a cross-workspace copy)
-                if cls == "group":
+                if cls == "group" and op.get("deferred"):
+                    e = ws.create_entity(ContainerGroup, save_on_creation=False, entity={"parent": p, "name": f"g{op['id']}"})
+                elif cls == "group":
                     e = ContainerGroup.create(ws, parent=p, name=f"g{op['id']}")
                 elif cls == "dhgroup":
                     e = DrillholeGroup.create(ws, parent=p, name=f"dh{op['id']}")
